@@ -31,8 +31,8 @@ MgMany == {[k |-> "mgst", srv |-> s, items |-> [i \in 1..150 |-> [href |-> "o" \
                                                                 out |-> IF i \in {1, 77, 150} THEN "404" ELSE IF i = 101 THEN "403w" ELSE "ok"]]] : s \in Srvs}
 MgValid(c) == \A i, j \in 1..Len(c.items) : i # j => c.items[i].href # c.items[j].href
 \* PUT: the backend receives the caller's object and its answer (path, tag, time) is handed back
-PutCases == {[k |-> "put", srv |-> s, path |-> p, data |-> d, rpath |-> r, etag |-> e, mtime |-> m] :
-               s \in Srvs, p \in {"o1", "o2"}, d \in {"d1", "d2", "d3"}, r \in {"o1", "o2", "o3"}, e \in {"e0", "e1", "e2", "e3"}, m \in {"m0", "m1", "m2"}}
+PutCases == {[k |-> "put", srv |-> s, path |-> p, data |-> d, rpath |-> r, etag |-> e, mtime |-> m, form |-> f] :
+               f \in {"abs", "rel"}, s \in Srvs, p \in {"o1", "o2"}, d \in {"d1", "d2", "d3"}, r \in {"o1", "o2", "o3"}, e \in {"e0", "e1", "e2", "e3"}, m \in {"m0", "m1", "m2"}}
 \* the client reads conformant documents from an independent writer, whatever their layout
 \* "absent404(first)": the optional properties the resource lacks are reported in a 404 propstat instead of being left out
 Layouts == {"plain", "split", "splitrev", "extra", "opt404", "opt404first", "absent404", "absent404first", "prefixes", "ws", "cdata"}
